@@ -79,17 +79,22 @@ def lane(k, jobs, results, lock):
 def main():
     lanes = 8
     only = None
+    rx = None
     a = sys.argv[1:]
     while a:
         if a[0] == "--lanes":
             lanes = int(a[1]); a = a[2:]
         elif a[0] == "--only":
             only = a[1]; a = a[2:]
+        elif a[0] == "--match":
+            rx = a[1]; a = a[2:]
         else:
             a = a[1:]
     ids = sorted(x for x in os.listdir(os.path.join(VERIF, "seeded")) if os.path.isfile(os.path.join(VERIF, "seeded", x, "patch.diff")))
     if only:
         ids = [i for i in ids if i.startswith(only)]
+    if rx:
+        ids = [i for i in ids if re.search(rx, i)]
     jobs = list(ids)
     results = {}
     lock = threading.Lock()
@@ -101,7 +106,8 @@ def main():
     shutil.rmtree(ROOT, ignore_errors=True)
     sh("git -C /repo worktree prune")
     missed = [s for s in ids if not any(isinstance(v, dict) and v.get("exit") == 1 and v.get("violation_lines", 0) > 0 for v in results.get(s, {}).values())]
-    json.dump({"seeds": len(ids), "missed": missed, "results": results}, open(os.path.join(VERIF, "seeded", "REGRESSION.json"), "w"), indent=1, sort_keys=True)
+    out = os.path.join(VERIF, "seeded", "REGRESSION.json" if not (only or rx) else "REGRESSION-partial.json")
+    json.dump({"seeds": len(ids), "missed": missed, "results": results}, open(out, "w"), indent=1, sort_keys=True)
     print("%d seeded changes, %d missed: %s" % (len(ids), len(missed), missed))
     return 1 if missed else 0
 
